@@ -244,25 +244,23 @@ struct OBox : IOpt
                 if (cmd["map"].is_null() || (long)cmd["map"] == 0)
                     opt->setSpatialMap(nullptr);
                 else
-                    opt->setSpatialMap(static_cast<const SM *>(reg.smaps.at((long)cmd["map"]).get()));
+                {
+                    const long id = cmd["map"];
+                    const auto key = std::make_pair(id, DIM);
+                    if (!reg.smaps.count(key))
+                    {
+                        auto *mp = new SM();
+                        mp->gain = reg.smap_gain.at(id);
+                        reg.smaps[key] = std::shared_ptr<void>(mp, [](void *p)
+                                                               { delete static_cast<SM *>(p); });
+                        reg.smap_setters[key] = [mp](double g)
+                        { mp->gain = g; };
+                    }
+                    opt->setSpatialMap(static_cast<const SM *>(reg.smaps.at(key).get()));
+                }
             }
             else
                 opt->setSpatialMap(nullptr);
-        }
-        else if (op == "smap_new")
-        {
-            if constexpr (kUserS)
-            {
-                auto *mp = new SM();
-                mp->gain = hx::num(cmd["gain"]);
-                reg.smaps[(long)cmd["map"]] = std::shared_ptr<void>(mp, [](void *p)
-                                                                    { delete static_cast<SM *>(p); });
-            }
-        }
-        else if (op == "smap_set")
-        {
-            if constexpr (kUserS)
-                static_cast<SM *>(reg.smaps.at((long)cmd["map"]).get())->gain = hx::num(cmd["gain"]);
         }
         else if (op == "get_dim")
             o.i("dim", opt->getDimension());
